@@ -35,7 +35,7 @@ ATOL = 1e-10
 
 def plan(tier, seed):
     n = 16
-    per = 400 if tier == "quick" else 6000
+    per = 4000 if tier == "quick" else 40000
     return [{"name": "s%02d" % i, "shard": i, "cases": per, "timeout": 3000} for i in range(n)]
 
 
